@@ -491,14 +491,20 @@ func (d *TickDriver) Step(x *Exec, n *Node, i int) StepResult {
 			if nm.epoch < 1<<32 {
 				return
 			}
-			al := set(w.Read(n.L, n.H, n.TS, h, "listNodes", int64(nm.epoch%(1<<32))))
-			u := map[string]bool{}
-			for _, e := range append(append([]string{}, wantV...), al...) {
-				u[e] = true
+			// entries are stored per (truncated epoch, node key): a current candidate overwrites its own stale entry,
+			// the stale entries of nodes that are no candidates any more stay
+			cur := map[string]bool{}
+			for k := range nm.v2 {
+				cur[fmt.Sprint(NX(d.key(k)))] = true
 			}
-			var ul []string
-			for e := range u {
-				ul = append(ul, e)
+			ul := append([]string{}, wantV...)
+			stale := w.Read(n.L, n.H, n.TS, h, "listNodes", int64(nm.epoch%(1<<32)))
+			if l, ok := stale.Ret0().([]any); ok {
+				for _, e := range l {
+					if f, ok := e.([]any); ok && len(f) == 4 && !cur[fmt.Sprint(f[2])] {
+						ul = append(ul, fmt.Sprint(e))
+					}
+				}
 			}
 			sort.Strings(ul)
 			if fmt.Sprint(g) == fmt.Sprint(ul) {
